@@ -11,8 +11,23 @@ def optOf {α} (f : Json → P α) (j : Json) (k : String) : P (Option α) :=
 
 def trajOf (j : Json) : P TrajData := do
   match ← asArr j with
-  | [v, t0, len] => pure ⟨← asNat v, ← asInt t0, ← asNat len⟩
-  | _ => throw "traj: expected [v, t0, len]"
+  | [v, t0, steps] => pure ⟨← asNat v, ← asInt t0, ← listOf asInt steps⟩
+  | _ => throw "traj: expected [v, t0, [time steps]]"
+
+def ivOf (j : Json) : P (Int × Int) := do
+  match ← asArr j with
+  | [a, b] => pure (← asInt a, ← asInt b)
+  | _ => throw "interval: expected [lo, hi]"
+
+def errOf (j : Json) : P CR.Err := do
+  match ← asStr j with
+  | "assert" => pure .assert | "value" => pure .value | "key" => pure .key | "attr" => pure .attr | "type" => pure .type
+  | "zero-div" => pure .zeroDiv | "index" => pure .index | _ => pure .other
+
+def htokOf (j : Json) : P HTok := do
+  match ← asArr j with
+  | [b, ms] => pure ⟨← asNat b, ← listOf asNat ms⟩
+  | _ => throw "history entry: expected [base, [moves]]"
 
 def predOf (j : Json) : P (Option Pred) := do
   match j with
@@ -23,7 +38,7 @@ def predOf (j : Json) : P (Option Pred) := do
       let p : TPred := { shape := ← getNat j "shape", traj := ← trajOf (← field j "traj"), cache := none }
       let queried ← getBool j "queried"
       pure (some (.traj (if queried then p.occSet.2 else p)))
-    | "setb" => pure (some (.setb (← getNat j "v") (← getInt j "t0") (← getNat j "len")))
+    | "setb" => pure (some (.setb (← getNat j "v") (← getList ivOf j "ivs")))
     | k => throw s!"pred: unknown kind {k}"
 
 def obsOf (j : Json) : P Obs := do
@@ -32,7 +47,8 @@ def obsOf (j : Json) : P Obs := do
   pure { dynamic := ← getBool j "dynamic", shape := shape, init := init, t0 := ← getInt j "t0",
          initOcc := some (shape, init), pred := ← predOf ((fieldOpt j "pred").getD .null),
          sig := ← getNat j "sig", cen := ← getNat j "cen", shp := ← getNat j "shp",
-         hist := [], sigHist := [], cenHist := [], shpHist := [] }
+         hist := ← getList htokOf j "hist", sigHist := ← getList asNat j "sigh", cenHist := ← getList asNat j "cenh",
+         shpHist := ← getList asNat j "shph" }
 
 def obsOpOf (j : Json) : P ObsOp := do
   match ← asArr j with
@@ -48,7 +64,10 @@ def obsOpOf (j : Json) : P ObsOp := do
   | [.str "p_asg"] => pure .predSetAssignment
   | [.str "p_tr", v] => pure (.predTranslateRotate (← asNat v))
   | [.str "t_tr", v] => pure (.trajTranslateRotate (← asNat v))
-  | [.str "t_app", v] => pure (.trajAppendState (← asNat v))
+  | [.str "t_app", v, t] => pure (.trajAppendState (← asNat v) (← asInt t))
+  | [.str "p_occs", v, ivs] => pure (.predSetOccupancies (← asNat v) (← listOf ivOf ivs))
+  | [.str "set_meta", a, b, c] => pure (.setMeta (← asNat a) (← asNat b) (← asNat c))
+  | [.str "failed", e] => pure (.failed (← errOf e))
   | [.str "q_occ", t] => pure (.qOcc (← asInt t))
   | [.str "q_state", t] => pure (.qState (← asInt t))
   | [.str "q_pocc", t] => pure (.qPredOcc (← asInt t))
@@ -96,6 +115,9 @@ def netOpOf (j : Json) : P NetOp := do
   | [.str "to2d", v] => pure (.convert2d (← asNat v))
   | [.str "l_tr", i, v] => pure (.lanTranslateRotate (← asNat i) (← asNat v))
   | [.str "l_to2d", i, v] => pure (.lanConvert2d (← asNat i) (← asNat v))
+  | [.str "create_from"] => pure .createFrom
+  | [.str "replace", ls] => pure (.replace (← listOf idLanOf ls))
+  | [.str "failed", e] => pure (.failed (← errOf e))
   | [.str "deepcopy"] => pure .deepcopy
   | [.str "pickle"] => pure .pickle
   | [.str "q_find"] => pure .qFind
@@ -133,6 +155,9 @@ def cycOpOf (j : Json) : P CycOp := do
   | [.str "set_es", es] => pure (.mutate (.setElements (← listOf elemOf es)))
   | [.str "set_off", o] => pure (.mutate (.setOffset (← asInt o)))
   | [.str "set_active", b] => pure (.mutate (.setActive (← asBool b)))
+  | [.str "set_dur", i, d] => pure (.mutate (.setDuration (← asNat i) (← asInt d)))
+  | [.str "set_state", i, st] => pure (.mutate (.setState (← asNat i) (← asNat st)))
+  | [.str "list_edit", es] => pure (.mutate (.listEdit (← listOf elemOf es)))
   | [.str "q", ts] => pure (.q (← listOf asInt ts))
   | [.str "replace", c] => pure (.replace (← cycOf c))
   | _ => throw s!"cycle op: cannot decode {j}"
